@@ -19,11 +19,12 @@ TraceLog == TLCGet(2)
 VARIABLES l,     \* next line
           sid,   \* server-side connection number -> connection of the specification (None = not seen yet)
           tid,   \* id of the current trace
-          rets   \* subscribers whose Subscribe call was seen returning
-tvars == <<vars, l, sid, tid, rets>>
+          rets,  \* subscribers whose Subscribe call was seen returning
+          unsubs \* subscribers whose unsubscribe function was seen returning
+tvars == <<vars, l, sid, tid, rets, unsubs>>
 Ev == TraceLog[l]
 IsEvent(e) == l <= Len(TraceLog) /\ Ev.ev = e /\ l' = l + 1
-Keep == UNCHANGED <<sid, tid, rets>>
+Keep == UNCHANGED <<sid, tid, rets, unsubs>>
 Same == UNCHANGED vars
 
 TraceInit ==
@@ -31,16 +32,17 @@ TraceInit ==
   /\ TLCSet(1, 0)
   /\ TLCSet(2, ndJsonDeserialize(IOEnv.TRACE))
   /\ Init
-  /\ cfg = [key |-> [s \in Subs |-> 1], idle |-> "zero", bad |-> NoBad, ping |-> FALSE]
+  /\ cfg = [key |-> [s \in Subs |-> 1], idle |-> "zero", bad |-> NoBad, ping |-> FALSE, hold |-> FALSE, reent |-> FALSE]
   /\ sid = [n \in Conn |-> None]
   /\ tid = "none"
-  /\ rets = {}
+  /\ rets = {} /\ unsubs = {}
 
 T_Reset ==
   /\ IsEvent("reset")
   /\ IF l = 1 THEN TRUE ELSE TraceLog[l - 1].ev = "end"
   /\ cfg' = [key |-> [s \in Subs |-> IF s <= Len(Ev.key) THEN Ev.key[s] ELSE 1], idle |-> Ev.idle,
-              bad |-> [s \in Subs |-> IF s <= Len(Ev.bad) THEN Ev.bad[s] ELSE FALSE], ping |-> Ev.ping]
+              bad |-> [s \in Subs |-> IF s <= Len(Ev.bad) THEN Ev.bad[s] ELSE FALSE], ping |-> Ev.ping,
+              hold |-> Ev.hold, reent |-> Ev.reent]
   /\ sub' = [s \in Subs |-> SubInit]
   /\ conn' = [c \in Conn |-> ConnInit]
   /\ subs' = [c \in Conn |-> [i \in Subs |-> None]]
@@ -52,7 +54,7 @@ T_Reset ==
   /\ nconn' = 0 /\ nframes' = 0 /\ ncancel' = 0
   /\ sid' = [n \in Conn |-> None]
   /\ tid' = Ev.id
-  /\ rets' = {}
+  /\ rets' = {} /\ unsubs' = {}
 
 \* ---- callers ---------------------------------------------------------------
 T_Call == IsEvent("call") /\ Ev.s \in Subs /\ Call(Ev.s) /\ Keep
@@ -77,7 +79,7 @@ T_Ret ==
   \* x = "fail": the data-source wrapper (level "ds") reports a failed call without the error class
   /\ IF Ev.x = "ok" THEN sub[Ev.s].pc = "ok" ELSE sub[Ev.s].pc = "failed" /\ (Ev.x = "fail" \/ sub[Ev.s].err = Ev.x)
   /\ rets' = rets \cup {Ev.s}
-  /\ Same /\ UNCHANGED <<sid, tid>>
+  /\ Same /\ UNCHANGED <<sid, tid, unsubs>>
 
 \* handler callback
 T_Handler ==
@@ -93,7 +95,8 @@ T_Handler ==
   /\ Keep
 
 \* the unsubscribe function returned (its effects - stop frame, removal, maybe shutdown - are visible earlier)
-T_Unsub == IsEvent("unsub") /\ Ev.s \in Subs /\ sub[Ev.s].unsub /\ Same /\ Keep
+T_Unsub == /\ IsEvent("unsub") /\ Ev.s \in Subs /\ sub[Ev.s].unsub
+           /\ unsubs' = unsubs \cup {Ev.s} /\ Same /\ UNCHANGED <<sid, tid, rets>>
 
 \* ---- the server: observations ----------------------------------------------
 Bound(n) == n \in Conn /\ sid[n] # None
@@ -106,7 +109,7 @@ T_SrvReq ==
                      /\ \A n \in Conn : sid[n] # d
                      /\ Ev.key = 0 \/ conn[d].key = Ev.key
                      /\ sid' = [sid EXCEPT ![Ev.c] = d]
-  /\ Same /\ UNCHANGED <<tid, rets>>
+  /\ Same /\ UNCHANGED <<tid, rets, unsubs>>
 
 InitSent(d) == conn[d].stage = "init" \/ conn[d].res \in {"ok", "initctx", "init"}
 
@@ -136,17 +139,23 @@ T_SrvReject   == IsEvent("srv.reject") /\ Bound(Ev.c) /\ SrvReject(sid[Ev.c]) /\
 T_SrvAck      == IsEvent("srv.ack") /\ Bound(Ev.c) /\ SrvAck(sid[Ev.c]) /\ Keep
 T_SrvInitFail == IsEvent("srv.initfail") /\ Bound(Ev.c) /\ SrvInitFail(sid[Ev.c]) /\ Keep
 T_SrvClose    == IsEvent("srv.close") /\ Bound(Ev.c) /\ SrvClose(sid[Ev.c], Ev.n) /\ Keep
+T_SrvHold     == IsEvent("srv.hold") /\ Bound(Ev.c) /\ SrvHoldClose(sid[Ev.c]) /\ Keep
+T_SrvRelease  == IsEvent("srv.release") /\ Bound(Ev.c) /\ SrvRelease(sid[Ev.c]) /\ Keep
 T_SrvMute     == IsEvent("srv.mute") /\ Bound(Ev.c) /\ SrvMute(sid[Ev.c]) /\ Keep
 T_SrvSend ==
   /\ IsEvent("srv.send") /\ Bound(Ev.c) /\ Ev.s \in Subs /\ Ev.k \in Kinds
   /\ Ev.n = Len(sent[Ev.s]) + 1
-  /\ SrvSend(sid[Ev.c], Ev.s, Ev.k, Ev.v)
+  /\ SrvSend(sid[Ev.c], Ev.s, Ev.k, Ev.v, Ev.sc, Ev.sp)
   /\ Keep
 
 \* ---- time, bookkeeping, end -------------------------------------------------
 \* the driver found the process quiet (no TCP byte or close in flight, no runnable goroutine): the specification has
 \* no enabled internal step left either, and every Subscribe call that is over has been seen returning
-Returned == \A s \in Subs : sub[s].pc \in {"ok", "failed"} => s \in rets
+Returned == /\ \A s \in Subs : sub[s].pc \in {"ok", "failed"} => s \in rets
+            \* ... and every unsubscribe that has happened has also returned (a cancel stuck behind a lock is a stall)
+            /\ \A s \in Subs : sub[s].unsub =>
+                  \/ s \in unsubs
+                  \/ sub[s].tgt # None /\ Blocked(sub[s].tgt) /\ conn[sub[s].tgt].shut = "notify"   \* inside the held close handshake
 T_Quiet == IsEvent("quiet") /\ Quiescent /\ Returned /\ Same /\ Keep
 
 T_IdleWait == IsEvent("idlewait") /\ TimersDone /\ Same /\ Keep
@@ -185,12 +194,12 @@ Silent ==
                         \/ PubDone(c) \/ PubMapOk(c) \/ PubMapErr(c)
                         \/ DispatchDrop(c) \/ ReadClose(c) \/ ReadKilled(c) \/ PingExpire(c) \/ PingSpurious(c) \/ ShutEnd(c) \/ IdleFire(c)
   /\ l <= Len(TraceLog)
-  /\ UNCHANGED <<l, sid, tid, rets>>
+  /\ UNCHANGED <<l, sid, tid, rets, unsubs>>
 
 TraceNext ==
   \/ T_Reset \/ T_Call \/ T_Cancel \/ T_CancelDone \/ T_Ret \/ T_Handler \/ T_Unsub
   \/ T_SrvReq \/ T_SrvInit \/ T_SrvRecv \/ T_SrvGone
-  \/ T_SrvUpgrade \/ T_SrvReject \/ T_SrvAck \/ T_SrvInitFail \/ T_SrvClose \/ T_SrvMute \/ T_SrvSend
+  \/ T_SrvUpgrade \/ T_SrvReject \/ T_SrvAck \/ T_SrvInitFail \/ T_SrvClose \/ T_SrvMute \/ T_SrvHold \/ T_SrvRelease \/ T_SrvSend
   \/ T_Quiet \/ T_IdleWait \/ T_Stats \/ T_SrvOpen \/ T_End
   \/ Silent
 
